@@ -1,0 +1,24 @@
+//go:build verif
+
+package engine
+
+// VerifBeforeSend, if set, is called by every worker of the parallel parser
+// just before it hands over its result; it may block, which lets a test
+// harness decide the order in which results arrive.
+var VerifBeforeSend func(batchIndex int)
+
+// VerifAfterCollect, if set, is called by the collector after it has stored
+// the result of the given batch.
+var VerifAfterCollect func(batchIndex int)
+
+func verifBeforeSend(batchIndex int) {
+	if f := VerifBeforeSend; f != nil {
+		f(batchIndex)
+	}
+}
+
+func verifAfterCollect(batchIndex int) {
+	if f := VerifAfterCollect; f != nil {
+		f(batchIndex)
+	}
+}
